@@ -9,6 +9,7 @@ import AlgopyVerif.Model.Convert
 import AlgopyVerif.Model.NthDeriv
 import AlgopyVerif.Model.Pullback
 import AlgopyVerif.Model.Tracer
+import AlgopyVerif.Model.Index
 import Lean.Data.Json
 /-!
 # Request dispatch of the model driver (JSON codec + operation table)
@@ -223,6 +224,46 @@ def handleK (j : Json) : Except String Json := do
       | "div" => pbDiv zb ys zs zero zero
       | _ => ([], [])
     pure (okArrs [ofSeries D P shape fun p idx => (f p idx).1, ofSeries D P shape fun p idx => (f p idx).2])
+  | "np" =>
+    -- mini-NumPy operations
+    let what ← j.getObjValAs? String "what"
+    let x : NdArray K ← getArr j "x"
+    let parseIdx (ja : Array Json) : Except String (List Idx) := ja.toList.mapM fun o =>
+      match o with
+      | Json.str "e" => pure Idx.ellipsis
+      | Json.str "n" => pure Idx.newaxis
+      | o =>
+        match o.getObjValAs? Int "i" with
+        | .ok i => pure (Idx.int i)
+        | .error _ => do
+          let sl ← o.getObjValAs? (Array Json) "s"
+          let g (k : Nat) : Option Int := match sl.getD k Json.null with
+            | Json.null => none
+            | v => (v.getInt?).toOption
+          pure (Idx.slice (g 0) (g 1) (g 2))
+    match what with
+    | "getitem" =>
+      let idx ← parseIdx (← j.getObjValAs? (Array Json) "idx")
+      optArr (getitem x idx)
+    | "utgetitem" =>
+      let idx ← parseIdx (← j.getObjValAs? (Array Json) "idx")
+      optArr (utGetitem x idx)
+    | "sum" =>
+      let ax ← j.getObjValAs? Nat "axis"
+      pure (okArrs [sumAxis x ax])
+    | "utsum" =>
+      let ax ← j.getObjValAs? Int "axis"
+      pure (okArrs [utSumAxis x ax])
+    | "reshape" =>
+      let sh ← j.getObjValAs? (Array Nat) "shape"
+      optArr (x.reshape sh.toList)
+    | "transpose" =>
+      let pm ← j.getObjValAs? (Array Nat) "perm"
+      pure (okArrs [x.transposeAxes pm.toList])
+    | "broadcast" =>
+      let sh ← j.getObjValAs? (Array Nat) "shape"
+      pure (okArrs [x.broadcastTo sh.toList])
+    | _ => throw s!"bad-what {what}"
   | "conv" =>
     let what ← j.getObjValAs? String "what"
     match what with
